@@ -89,14 +89,14 @@ def gen_case(ctx, idx, stream='case'):
         c['layout'] = '2d'
     nseg = r.choice([1, 1, 2, 2, 3, 4, 5])
     if isfloat and c['layout'] != '4d' and not (c['type'] != 'LABELMAP' and r.random() < 0.1):
-        nseg = 1                            # a 3-D float array is a single segment by definition (15 %: several
+        nseg = 1                            # a 3-D float array is a single segment by definition (10 %: several
         #                                     descriptions anyway -- BINARY: label-map meaning, segment 1 only;
-        #                                     FRACTIONAL: open finding, the mask is copied to every segment)
+        #                                     FRACTIONAL: must be refused, a 4-D array is required -- fix d437594)
     if c['type'] == 'LABELMAP' and r.random() < 0.6:
         pool = [1, 2, 3, 5, 8, 13, 40, 100, 254, 255, 256, 257, 300, 511, 700, 4097, 65535]
         segs = sorted(r.sample(pool, nseg))
         if isfloat and c['layout'] != '4d' and segs[0] != 1 and r.random() < 0.8:
-            segs[0] = 1         # (the remaining 20 % exercise the open finding C01-float-labelmap-undescribed)
+            segs[0] = 1         # (the remaining 20 %: label 1 undescribed, must be refused -- fix f08a76b)
     else:
         segs = list(range(1, nseg + 1))
     c['segs'] = segs
@@ -380,6 +380,8 @@ def must_refuse(c, mask):
             return 'float_nonbinary'
         if c['type'] == 'LABELMAP' and m.ndim == 3 and 1 not in segs and np.any(m == 1.0):
             return 'undescribed'        # a binary 3-D mask is segment number 1, which is not described
+        if c['type'] == 'FRACTIONAL' and m.ndim == 3 and len(segs) > 1:
+            return 'float_several'      # a 2-D/3-D array of fractions is ONE segment (the docstring requires a 4-D array)
     elif m.ndim == 4:
         if m.max() > 1:
             return 'nonbinary4d'
@@ -631,7 +633,7 @@ def run_case(ctx, c, reqs, pending, paths=('memory', 'eager', 'lazy')):
     hist = dict(type=c['type'], layout=c['layout'], dtype=c['dtype'], source=c['source'], syntax=c['ts'], omit=c['omit'],
                 empty=c['empty'], residue=n % 8, small=n < 8, planes=P, segments=len(c['segs']), workers=c['workers'],
                 mem=c.get('mem', 'C'), palette=bool(c.get('palette')), ctor_spelling=c.get('ctor_spelling', 'plain'),
-                mfv=c['mfv'] if c['type'] == 'FRACTIONAL' else '-', bad=applied or '-',
+                mfv=c['mfv'] if c['type'] == 'FRACTIONAL' else '-', bad=applied or '-', must_refuse=refuse or '-',
                 outcome='ok' if seg is not None else 'refused')
     margs = model_args(c, keep)
     # ---- input must not be modified (also when the constructor raises)
@@ -660,20 +662,6 @@ def run_case(ctx, c, reqs, pending, paths=('memory', 'eager', 'lazy')):
         pending.append((desc, 'refusal', ('err', kind)))
         return
     exp = expected_raw(c, mask)
-    if c['type'] == 'FRACTIONAL' and mask.dtype.kind == 'f' and c['layout'] != '4d' and len(c['segs']) > 1:
-        # region of the open finding C01-float-fraction-copied: ONE oracle verdict per case (so that known failures can
-        # never fill the failure list) + the model comparison, nothing else
-        ctx.case(path='memory', **hist)
-        case = dict(desc, path='memory', request='supplied', order=list(range(P)))
-        try:
-            got = read_back(seg, c, src, ids, list(range(P)), assert_missing_frames_are_empty=True, rescale_fractional=False)
-            if not np.array_equal(got.astype(np.int64), exp):
-                ctx.fail(case, 'a float mask for a single segment reads back for several described segments', site='read/memory')
-            reqs.append(('roundtrip', dict(margs, request=list(range(P)), allow_missing=True)))
-            pending.append((case, 'read', None, got.astype(np.int64).transpose(0, 3, 1, 2).reshape(P, -1, n).tolist()))
-        except Exception as e:  # noqa: BLE001
-            ctx.fail(case, f'read refused: {type(e).__name__}: {e}'[:300], site='read/memory')
-        return
     alt = near_tie_alternative(c, mask, exp)
     n_ties = int((alt != exp).sum())
     ctx.hist('near_tie_pixels', n_ties if n_ties < 9 else '9+')
@@ -1384,18 +1372,8 @@ def _own_open_findings():
 
 
 def attribute(failure, open_findings):
-    """Attribute an oracle failure to an open known finding (by call site + input class), else None."""
-    ids = {f['id'] for f in list(open_findings) + _own_open_findings()}
-    c = failure.get('case') or {}
-    site = failure.get('site') or ''
-    if ('C01-float-labelmap-undescribed' in ids and site == 'refusal' and 'undescribed' in str(failure.get('detail'))
-            and c.get('type') == 'LABELMAP' and str(c.get('dtype', '')).startswith('float') and c.get('layout') != '4d'
-            and 1 not in (c.get('segs') or [1])):
-        return 'C01-float-labelmap-undescribed'
-    if ('C01-float-fraction-copied' in ids and c.get('type') == 'FRACTIONAL' and str(c.get('dtype', '')).startswith('float')
-            and c.get('layout') != '4d' and len(c.get('segs') or [1]) > 1
-            and site.split('/')[0] in ('read', 'read-rescaled', 'read-strict', 'read-sequence', 'written-file', 'iter_segments')):
-        return 'C01-float-fraction-copied'
+    """Attribute an oracle failure to an open known finding (by call site + input class), else None.  C01 has no open
+    finding at present (the two former ones were fixed in /repo f08a76b and d437594): nothing is attributed."""
     return None
 
 
